@@ -113,4 +113,91 @@ ensures = [ "r matches Ok(o) ==> (o matches Some(k) && {lenok("bytes@")} && {val
 ordinal = 4
 params = "|err: SignatureError|"
 ret = "(r: D::Error)"''')
+
+# ---- the three remaining text decoders (not of the byte-array family)
+out.append("""
+[[item]]
+file = "libwallet/src/slate_versions/v4.rs"
+path = "struct VersionCompatInfoV4"
+derive = []
+no_clone_spec = true
+
+[[item]]
+file = "libwallet/src/slate_versions/ser.rs"
+path = "mod version_info_v4 :: fn deserialize"
+as_free = "version_info_v4_deserialize"
+[[item.replace]]
+rule = "L17"
+pattern = 's\\.split\\(.:.\\)\\.collect\\(\\)'
+with = 'vf_split_colon(&s)'
+count = 1
+[item.fn.deserialize]
+ensures = [
+  { label = "version_text_is_two_decimal_u16_separated_by_a_colon", clause = "res matches Ok(v) ==> (spec_de_text(deserializer) matches Some(s) && spec_split_colon(s).len() == 2 && spec_u16_dec(spec_split_colon(s)[0]) == Some(v.version) && spec_u16_dec(spec_split_colon(s)[1]) == Some(v.block_header_version))" },
+  { label = "malformed_version_text_is_refused", clause = "(spec_de_text(deserializer) is None || (spec_de_text(deserializer) matches Some(s) && (spec_split_colon(s).len() != 2 || spec_u16_dec(spec_split_colon(s)[0]) is None || spec_u16_dec(spec_split_colon(s)[1]) is None))) ==> res is Err" },
+]
+[[item.fn.deserialize.closure]]
+ordinal = 1
+params = "|s: String|"
+ret = "(r: Result<VersionCompatInfoV4, D::Error>)"
+ensures = [
+  "r matches Ok(v) ==> spec_split_colon(s).len() == 2 && spec_u16_dec(spec_split_colon(s)[0]) == Some(v.version) && spec_u16_dec(spec_split_colon(s)[1]) == Some(v.block_header_version)",
+  "(spec_split_colon(s).len() != 2 || spec_u16_dec(spec_split_colon(s)[0]) is None || spec_u16_dec(spec_split_colon(s)[1]) is None) ==> r is Err",
+]
+""")
+for name, opt in (("ov3_serde", False), ("option_ov3_serde", True)):
+    T = "Option<OnionV3Address>" if opt else "OnionV3Address"
+    src = "spec_de_opt_text(deserializer) matches Some(Some(s))" if opt else "spec_de_text(deserializer) matches Some(s)"
+    okpat = "Ok(Some(a))" if opt else "Ok(a)"
+    nonecase = ('\n  { label = "absent_field_decodes_to_none", clause = "res matches Ok(None) ==> spec_de_opt_text(deserializer) == Some(None::<String>)" },' if opt else "")
+    andthen = ("'.and_then(|v: OnionV3Address| -> (o: Result<OnionV3Address, D::Error>) ensures o == Ok::<OnionV3Address, D::Error>(v) { Ok(v) })'")
+    out.append(f"""
+[[item]]
+file = "libwallet/src/slate_versions/ser.rs"
+path = "mod {name} :: fn deserialize"
+as_free = "{name}_deserialize"
+[[item.replace]]
+rule = "L17"
+pattern = 'OnionV3Address::try_from\\(s\\.as_str\\(\\)\\)'
+with = 'vf_onion_try_from(&s)'
+count = 1
+""" + (f"""[[item.replace]]
+rule = "L25"
+pattern = '\\.and_then\\(Ok\\)'
+with = {andthen}
+count = 1
+""" if not opt else "") + f"""[item.fn.deserialize]
+ensures = [
+  {{ label = "onion_field_is_the_parsers_reading_of_the_text", clause = "res matches {okpat} ==> ({src} && spec_onion_parse(s) == Some(a))" }},{nonecase}
+  {{ label = "text_that_is_no_onion_address_is_refused", clause = "({src.replace(' matches ', ' matches ')} && spec_onion_parse(s) is None) ==> res is Err" }},
+]
+""")
+    if not opt:
+        out.append(f"""[[item.fn.deserialize.closure]]
+ordinal = 1
+params = "|s: String|"
+ret = "(r: Result<OnionV3Address, D::Error>)"
+ensures = [ "r matches Ok(a) ==> spec_onion_parse(s) == Some(a)", "spec_onion_parse(s) is None ==> r is Err" ]
+[[item.fn.deserialize.closure]]
+ordinal = 2
+params = "|err: OnionV3AddressError|"
+ret = "(r: D::Error)"
+""")
+    else:
+        out.append(f"""[[item.fn.deserialize.closure]]
+ordinal = 1
+params = "|res: Option<String>|"
+ret = "(r: Result<Option<OnionV3Address>, D::Error>)"
+ensures = [ "r matches Ok(Some(a)) ==> (res matches Some(s) && spec_onion_parse(s) == Some(a))", "r matches Ok(None) ==> res is None", "(res matches Some(s) && spec_onion_parse(s) is None) ==> r is Err" ]
+[[item.fn.deserialize.closure]]
+ordinal = 2
+params = "|err: OnionV3AddressError|"
+ret = "(r: D::Error)"
+[[item.fn.deserialize.closure]]
+ordinal = 3
+params = "|a: OnionV3Address|"
+ret = "(r: Result<Option<OnionV3Address>, D::Error>)"
+ensures = [ "r == Ok::<Option<OnionV3Address>, D::Error>(Some(a))" ]
+""")
+
 open('/verif/contracts/ser_json_fields.toml','w').write("\n".join(out)+"\n")
